@@ -92,6 +92,62 @@ class HostileObj:
         return self.n      # (not a fault site: the harness itself puts these objects into dicts)
 
 
+class HostileObj2(HostileObj):
+    """... and the operators a constraint validator applies to the value."""
+    __slots__ = ()
+
+    def __len__(self):
+        faults.hook_point("obj.__len__")
+        return 2
+
+    def _cmp(self, other):
+        faults.hook_point("obj.__cmp__")
+        return False
+
+    __lt__ = __le__ = __gt__ = __ge__ = _cmp
+
+    def __mod__(self, other):
+        faults.hook_point("obj.__mod__")
+        return 0
+
+    def __floordiv__(self, other):
+        faults.hook_point("obj.__mod__")
+        return 1
+
+    def __iter__(self):
+        faults.hook_point("obj.__iter__")
+        return iter(())
+
+    def __getitem__(self, item):
+        faults.hook_point("obj.__iter__")
+        raise IndexError(item)
+
+    __hash__ = HostileObj.__hash__
+
+
+# constrained types: name -> (bases, constraints, benign value); 'o'-kinds have no origin type, so any object reaches the validators
+CON = {
+    "olen": ((), {"max_length": 3}, "ab"), "ominlen": ((), {"min_length": 1}, "ab"), "olength": ((), {"length": 2}, "ab"),
+    "ogt": ((), {"gt": 0}, 3), "ole": ((), {"le": 10}, 3), "omul": ((), {"multiple_of": 3}, 3), "oconst": ((), {"const": 5}, 5),
+    "oenum": ((), {"enum": [1, 2]}, 1), "oregex": ((), {"regex": "a+"}, "aa"),
+    "dgt": ((decimal.Decimal,), {"gt": 0}, "1.5"), "dmul": ((decimal.Decimal,), {"multiple_of": 3}, "3"),
+    "ddig": ((decimal.Decimal,), {"max_digits": 8, "decimal_places": 2}, "1.5"), "fmul": ((float,), {"multiple_of": 0.5}, 1.5),
+    "fdig": ((float,), {"max_digits": 5}, 1.5), "ile": ((int,), {"le": 100, "ge": -100}, 3),
+    "sre": ((str,), {"regex": "a+", "max_length": 5}, "aa"), "uniq": ((list,), {"unique_items": True}, [1, 2]),
+    "dtle": ((datetime.datetime,), {"le": datetime.datetime(2100, 1, 1)}, "2020-01-02 03:04:05"),
+}
+CON_NAMES = sorted(CON)
+_CON_T = {}
+
+
+def con_type(name):
+    from utype import Rule
+    if name not in _CON_T:
+        bases, kw, _ = CON[name]
+        _CON_T[name] = type("C_" + name, bases + (Rule,), dict(kw, __module__="verif_c04"))
+    return _CON_T[name]
+
+
 def _self_list():
     a = []
     a.append(a)
@@ -106,7 +162,13 @@ def _mutual_lists():
 
 
 def hostile_pool():
-    return _hostile_base() + [_self_list(), _mutual_lists(), ReprBomb(), [ReprBomb()]]
+    return _hostile_base() + [_self_list(), _mutual_lists(), ReprBomb(), [ReprBomb()]] + _hostile_wrapped()
+
+
+def _hostile_wrapped():
+    # the same scalars behind one level of container: converters unwrap single-item containers before they look at the value
+    return [[float("inf")], (float("nan"),), [float("-inf")], {decimal.Decimal("Infinity")}, [decimal.Decimal("NaN")], [1e308],
+            [10 ** 400], ["nan"], [[float("inf")]], [b"\xff"], (None,), [object], [complex(1, 1)], "{a b}", "(1 2)", "[1,", "{'a': }"]
 
 
 def _hostile_base():
@@ -140,6 +202,8 @@ def gen_scalar(rng):
         return ["and", ["leaf"], ["hook"]]
     if r < 0.85:
         return ["union", ["hook"], ["leaf2"]]
+    if r < 0.93:
+        return ["con", rng.choice(CON_NAMES)]
     return ["b", rng.choice(sorted(BUILTINS))]
 
 
@@ -166,6 +230,8 @@ def gen_type(rng, depth, allow_dc=True):
 
 def tdsl_is_hashable(t):
     k = t[0]
+    if k == "con":
+        return t[1] != "uniq"
     if k in ("leaf", "leaf2", "keyleaf", "hook", "b"):
         return k != "b" or t[1] not in ()
     if k in ("opt", "union", "xor", "and"):
@@ -183,6 +249,11 @@ def gen_value(rng, t, pool, pos, depth, hostile_p):
         if rng.random() < hostile_p:
             return {"$b": [t[1], rng.randrange(N_HOSTILE)]}
         return {"$b": [t[1], -1]}
+    if k == "con":
+        r = rng.random()
+        if t[1].startswith("o") and r < 0.6:
+            return {"$conho": [t[1], 20 + pool.next()]}
+        return {"$con": [t[1], rng.randrange(N_HOSTILE) if r < 0.8 else -1]}
     if k == "int":
         return 3
     if k == "opt":
@@ -241,6 +312,8 @@ def generate(rng, tier):
             "positional": rng.random() < 0.4}
     if api in ("rule", "transform"):
         t = gen_type(rng, rng.choice([0, 0, 1, 1, 2, 2, 3]))     # 0: a constrained type / logical combination at the top
+        if rng.random() < 0.15:
+            t = ["con", rng.choice(CON_NAMES)]
         while t[0] in ("leaf", "leaf2", "keyleaf", "b", "hook"):
             # (nor is a bare Rule whose own pre/post_validate override raises: that is the caller's code running at the top)
             # a plain registered type handed to type_transform is not one of the statement's subjects
@@ -263,12 +336,22 @@ def generate(rng, tier):
             plan["dup"] = {"al_" + f["name"]: {"$ho": 2}}
         if api in ("schema", "dataclass") and rng.random() < 0.12:
             fields.append({"name": "dsc", "type": ["disc"]})
-            inp["dsc"] = rng.choice([{"kind": "a"}, {"kind": {"$unhashable": 1}}, {"kind": {"$ho": 3}}, {"kind": "zz"}, 5])
+            inp["dsc"] = rng.choice([{"kind": "a"}, {"kind": {"$unhashable": 1}}, {"kind": {"$ho": 3}}, {"kind": "zz"}, 5,
+                                     {"$fl": [["kind", "a"]]}, {"$fl": [["kind", "a"]]}, {"$fl": [["kind", "b"]]}, {"$conho": ["olen", 7]},
+                                     {"$con": ["olen", N_HOSTILE - rng.choice([1, 2, 3, 4])]}])
         plan["fields"] = fields
         plan["input"] = inp
         if api in ("func_gen", "func_agen") and rng.random() < 0.5:
             plan["gen_send"] = pool.next()
             pos.append(("leaf", plan["gen_send"]))
+        if api.startswith("func") and rng.random() < 0.25:
+            # *args: Leaf -- the extra positional values are converted one by one
+            plan["positional"] = True
+            plan["varargs"] = [gen_value(rng, ["leaf"], pool, pos, 1, 0) for _ in range(rng.choice([1, 2, 3]))]
+        if api.startswith("func") and rng.random() < 0.25:
+            # the declared return / yield type is a harness leaf and the body hands back a payload
+            plan["ret"] = pool.next()
+            pos.append(("leaf", plan["ret"]))
         # typed extras: Options(addition=Leaf) for data classes, **kwargs: Leaf for functions
         plan["extras"] = {}
         if rng.random() < 0.35:
@@ -308,6 +391,9 @@ def generate(rng, tier):
     if '"$ho"' in kernel.jdump([plan["input"], plan.get("dup")]):
         for _ in range(rng.choice([1, 2])):
             hooks.setdefault(rng.choice(["obj.__ne__", "obj.__eq__", "obj.__str__", "obj.__repr__"]), {})[str(rng.choice([1, 1, 2]))] = rng.choice(faults.EXC_NAMES)
+    if '"$conho"' in kernel.jdump(plan["input"]):
+        for _ in range(rng.choice([1, 1, 2])):
+            hooks.setdefault(rng.choice(["obj.__len__", "obj.__cmp__", "obj.__mod__", "obj.__ne__", "obj.__eq__", "obj.__str__", "obj.__iter__"]), {})[str(rng.choice([1, 1, 2]))] = rng.choice(faults.EXC_NAMES)
     inputs = {}
     in_sites = []
     if plan.get("top_fd"):
@@ -374,6 +460,8 @@ def build_type(t, env):
         return _DISC["t"]
     if k == "hook":
         return env["hook"]
+    if k == "con":
+        return con_type(t[1])
     if k == "b":
         return BUILTINS[t[1]]
     if k == "and":
@@ -417,6 +505,11 @@ def build_value(v, hostile):
             return HostileObj(v["$ho"])
         if "$unhashable" in v:
             return []
+        if "$conho" in v:
+            return HostileObj2(v["$conho"][1]) if hostile else copy.copy(CON[v["$conho"][0]][2])
+        if "$con" in v:
+            name, idx = v["$con"]
+            return hostile_pool()[idx] if idx >= 0 and hostile else copy.copy(CON[name][2])
         if "$b" in v:
             name, idx = v["$b"]
             if idx >= 0 and hostile:
@@ -529,24 +622,34 @@ def build_call(plan, env):
     for f in plan["fields"]:
         g["T_" + f["name"]] = build_type(f["type"], env)
     params = ", ".join(f"{n}: T_{n}" for n in names)
+    if plan.get("varargs"):
+        params += ", *args: Leaf"
     if plan.get("typed_extras"):
         g["Leaf"] = faults.Leaf
         params += ", **kwargs: Leaf"
     g["_has_raw"] = _has_raw
     mark = "    FLAGS.append('body')\n    if _has_raw(list(locals().values())):\n        FLAGS.append('raw_leaked')\n"
     send = plan.get("gen_send") is not None and api in ("func_gen", "func_agen")
-    sent_mark = "    if _has_raw([got]):\n        FLAGS.append('raw_leaked')\n    yield 2\n"
-    body = {"func_sync": "def f(%s):\n" + mark + "    return 1\n",
-            "func_coro": "async def f(%s):\n" + mark + "    return 1\n",
-            "func_gen": "def f(%s)" + (" -> Generator[int, Leaf, None]" if send else "") + ":\n" + mark + ("    got = yield 1\n" + sent_mark if send else "    yield 1\n"),
-            "func_agen": "async def f(%s)" + (" -> AsyncGenerator[int, Leaf]" if send else "") + ":\n" + mark + ("    got = yield 1\n" + sent_mark if send else "    yield 1\n")}[api]
+    ret = plan.get("ret")
+    sent_mark = "    if _has_raw([got]):\n        FLAGS.append('raw_leaked')\n    yield " + ("RET" if ret is not None else "2") + "\n"
+    if ret is not None:
+        # what the body hands back is converted after the body has legitimately run
+        mark += "    FLAGS.append('sending')\n"
+        g["RET"] = faults.Raw(ret)
+    yt = "Leaf" if ret is not None else "int"
+    y1 = "RET" if ret is not None else "1"
+    body = {"func_sync": "def f(%s)" + (" -> Leaf" if ret is not None else "") + ":\n" + mark + "    return " + y1 + "\n",
+            "func_coro": "async def f(%s)" + (" -> Leaf" if ret is not None else "") + ":\n" + mark + "    return " + y1 + "\n",
+            "func_gen": "def f(%s)" + (" -> Generator[" + yt + ", Leaf, None]" if send or ret is not None else "") + ":\n" + mark + ("    got = yield " + y1 + "\n" + sent_mark if send else "    yield " + y1 + "\n"),
+            "func_agen": "async def f(%s)" + (" -> AsyncGenerator[" + yt + ", Leaf]" if send or ret is not None else "") + ":\n" + mark + ("    got = yield " + y1 + "\n" + sent_mark if send else "    yield " + y1 + "\n")}[api]
     g["Generator"], g["AsyncGenerator"], g["Leaf"] = typing.Generator, typing.AsyncGenerator, faults.Leaf
     exec(body % params, g)
     w = utype.parse(g["f"], options=opts, eager=plan["eager"], no_cache=True)
 
     def call(v):
         if plan["positional"]:
-            r = w(*[v[n] for n in names], **{k: x for k, x in v.items() if k not in names})
+            r = w(*[v[n] for n in names], *[build_value(x, True) for x in plan.get("varargs") or []],
+                  **{k: x for k, x in v.items() if k not in names})
         else:
             r = w(**v)
         if api == "func_coro":
@@ -596,7 +699,9 @@ def _attempt(plan, env, hostile, budget):
     clock = StepClock(budget)
     try:
         with clock:
-            call(value)
+            got = call(value)
+        if plan.get("ret") is not None and _has_raw([got]):
+            FLAGS.append("raw_leaked")      # a declared return / yield type and a payload handed back unconverted
         out = ("ok",)
     except ParseError as e:
         out = ("ParseError",)
@@ -724,6 +829,9 @@ def _innermost(plan):
         if isinstance(v, dict) and ("$ho" in v or "$unhashable" in v):
             kinds.add("hostile_obj")
             return
+        if isinstance(v, dict) and ("$con" in v or "$conho" in v):
+            kinds.add("con:" + (v.get("$con") or v.get("$conho"))[0])
+            return
         if k == "disc":
             kinds.add("disc")
             return
@@ -792,6 +900,18 @@ def shrink(plan):
         p = copy.deepcopy(plan)
         p["collect"] = False
         yield p
+    for key in ("varargs", "ret", "gen_send", "typed_extras", "forbid_extras", "cast_keys", "top_fd", "dup"):
+        if plan.get(key):
+            p = copy.deepcopy(plan)
+            p.pop(key)
+            if key in ("typed_extras", "forbid_extras"):
+                p["extras"] = {}
+            yield p
+    if len(plan.get("varargs") or []) > 1:
+        for i in range(len(plan["varargs"])):
+            p = copy.deepcopy(plan)
+            p["varargs"].pop(i)
+            yield p
     if "fields" in plan:
         for i, f in enumerate(plan["fields"]):
             if len(plan["fields"]) > 1:
@@ -824,6 +944,8 @@ def _shrink_c04_value(v):
         if "$b" in v:
             if v["$b"][1] >= 0:
                 yield {"$b": [v["$b"][0], -1]}
+            return
+        if "$con" in v or "$conho" in v:
             return
         for key in ("$set", "$fl", "$map"):
             if key in v:
